@@ -128,21 +128,57 @@ theorem linecol_total (s : Array Nat) (x : Int) : ∃ lc, Pos.linecol s x = some
 theorem position_total (s : Array Nat) (e : P.Entry) (off : Int) : ∃ lc, Pos.position s e off = some lc :=
   linecol_total s _
 
-theorem junkMessage_ok (s : Array Nat) (j : PEnt) : ∃ t, junkMessage s j = .ok t := by
+theorem junkMessage_ok (s : Array Nat) (cls : Cls) (j : PEnt) : ∃ t, junkMessage s cls j = .ok t := by
   unfold junkMessage Pos.junkMessagePositions
   obtain ⟨a, ha⟩ := position_total s j.entry 0
   obtain ⟨b, hb⟩ := position_total s j.entry (-1)
-  rw [ha, hb]
-  exact ⟨_, rfl⟩
+  cases cls <;> simp only [ha, hb] <;> exact ⟨_, rfl⟩
 
-/-- `position` always resolves; `value_position` resolves for an Entity (it has a `val_span`) -/
-theorem resolve_ok (s : Array Nat) (e : P.Entry) (p : Pos.CheckPos)
-    (h : (∃ n, p = .entityPos n) ∨ ((∃ n, p = .offset n) ∧ e.kind = .entity)) :
-    ∃ lc, Pos.resolveCheckPos s .plain e p = some lc := by
-  rcases h with ⟨n, rfl⟩ | ⟨⟨n, rfl⟩, hk⟩
-  · exact position_total s e n
-  · simp only [Pos.resolveCheckPos, Pos.valSpan, hk, Bool.false_and, Bool.false_eq_true, if_false, Pos.valuePosition]
-    exact linecol_total s _
+/-- the position of a check result can be resolved on this entry: `position` always; `value_position` with an int for
+    an Entity (it has a `val_span`; Fluent: `position`) or any Android object; with a (line, col) tuple for a DTDEntity -/
+def Resolvable (cls : Cls) (e : PEnt) (p : Pos.CheckPos) : Prop :=
+  (∃ n, p = .entityPos n) ∨
+  ((∃ n, p = .offset n) ∧ (cls = .node ∨ (e.junk = false ∧ e.entry.kind = .entity))) ∨
+  ((∃ l c, p = .tuple l c) ∧ cls = .dtd ∧ e.entry.kind = .entity)
+
+theorem resolve_entityPos (s : Array Nat) (cls : Cls) (e : PEnt) (n : Int) :
+    ∃ lc, resolvePos s cls e (.entityPos n) = some lc := by
+  cases cls
+  · exact position_total s e.entry n
+  · exact position_total s e.entry n
+  · simp only [resolvePos]
+    split
+    · exact position_total s e.entry n
+    · exact position_total s e.entry n
+  · exact ⟨_, rfl⟩
+
+theorem resolve_ok (s : Array Nat) (cls : Cls) (e : PEnt) (p : Pos.CheckPos) (h : Resolvable cls e p) :
+    ∃ lc, resolvePos s cls e p = some lc := by
+  rcases h with ⟨n, rfl⟩ | ⟨⟨n, rfl⟩, h⟩ | ⟨⟨l, c, rfl⟩, rfl, hk⟩
+  · exact resolve_entityPos s cls e n
+  · cases cls with
+    | node => exact ⟨_, rfl⟩
+    | plain =>
+      rcases h with h | ⟨_, hk⟩
+      · cases h
+      · simp only [resolvePos, Pos.resolveCheckPos, Pos.valSpan, hk, Bool.false_and, Bool.false_eq_true, if_false, Pos.valuePosition]
+        exact linecol_total s _
+    | dtd =>
+      rcases h with h | ⟨_, hk⟩
+      · cases h
+      · simp only [resolvePos, Pos.resolveCheckPos, Pos.valSpan, hk, Bool.false_and, Bool.false_eq_true, if_false, Pos.valuePosition]
+        exact linecol_total s _
+    | fluent =>
+      rcases h with h | ⟨hj, _⟩
+      · cases h
+      · simp only [resolvePos, hj, Bool.false_eq_true, if_false, Pos.resolveCheckPos, Pos.fluentValuePosition]
+        exact position_total s e.entry n
+  · simp only [resolvePos, Pos.resolveCheckPos, Pos.dtdValuePositionTuple, Pos.valSpan, hk, Bool.false_and,
+      Bool.false_eq_true, if_false, Pos.valuePosition]
+    obtain ⟨lc, hlc⟩ := linecol_total s (if (0 : Int) < 0 then e.entry.ve else e.entry.vs + 0)
+    rw [hlc]
+    simp only
+    split <;> exact ⟨_, rfl⟩
 
 /-! ### the observers: every state the comparison reaches is the result of a history of events for the one file -/
 
@@ -270,15 +306,11 @@ theorem notify_emit (env : Env) {obs0 : ObsList} (hf : Fresh obs0) (hm : ObsM.Mo
 
 /-- the notification raised for one check result -/
 def checkEv (env : Env) (refent l10nent : PEnt) (c : CheckRes) : Option Ev :=
-  (Pos.resolveCheckPos env.l10nText .plain l10nent.entry c.pos).map (fun lc =>
+  (resolvePos env.l10nText env.cls l10nent c.pos).map (fun lc =>
     Ev.notify (sevCat c.sev) env.file (.str (checkMsg c.msg lc.1 lc.2 refent.key)))
 
-/-- the position of a check result can be resolved on this entry -/
-def Resolvable (e : P.Entry) (p : Pos.CheckPos) : Prop :=
-  (∃ n, p = .entityPos n) ∨ ((∃ n, p = .offset n) ∧ e.kind = .entity)
-
 theorem checkLoop_spec (env : Env) {obs0 : ObsList} (hf : Fresh obs0) (hm : ObsM.Modelled env.file) (refent l10nent : PEnt) :
-    ∀ (results : List CheckRes), (∀ c ∈ results, Resolvable l10nent.entry c.pos) →
+    ∀ (results : List CheckRes), (∀ c ∈ results, Resolvable env.cls l10nent c.pos) →
     ∀ (obs : ObsList) (skips : List PEnt), Reachable obs0 env.file obs →
       ∃ obs' skips', checkLoop env refent l10nent results (obs, skips) = .ok (obs', skips') ∧
         Emit obs0 env.file obs obs' (results.filterMap (checkEv env refent l10nent)) ∧
@@ -290,7 +322,7 @@ theorem checkLoop_spec (env : Env) {obs0 : ObsList} (hf : Fresh obs0) (hm : ObsM
     exact ⟨obs, skips, rfl, Emit.refl _ _ _, fun sk h => Or.inl h⟩
   | cons c cs ih =>
     intro hres obs skips hr
-    obtain ⟨lc, hlc⟩ := resolve_ok env.l10nText l10nent.entry c.pos (hres c (by simp))
+    obtain ⟨lc, hlc⟩ := resolve_ok env.l10nText env.cls l10nent c.pos (hres c (by simp))
     obtain ⟨obs1, rv, hn, he⟩ := notify_emit env hf hm hr (sevCat c.sev) (.str (checkMsg c.msg lc.1 lc.2 refent.key))
     obtain ⟨obs', skips', hcl, he2, hsk⟩ := ih (fun c' hc' => hres c' (by simp [hc'])) obs1
       (if c.sev == .error && env.mergeOn && !skips.contains l10nent then skips ++ [l10nent] else skips) (he.reachable hr)
@@ -329,7 +361,7 @@ def EvWF : Ev → Prop
 theorem checkEv_wf (env : Env) (refent l10nent : PEnt) (c : CheckRes) (ev : Ev)
     (h : checkEv env refent l10nent c = some ev) : EvWF ev := by
   unfold checkEv at h
-  cases hr : Pos.resolveCheckPos env.l10nText .plain l10nent.entry c.pos with
+  cases hr : resolvePos env.l10nText env.cls l10nent c.pos with
   | none => simp [hr] at h
   | some lc =>
     simp only [hr, Option.map_some, Option.some.injEq] at h
@@ -338,7 +370,7 @@ theorem checkEv_wf (env : Env) (refent l10nent : PEnt) (c : CheckRes) (ev : Ev)
     refine ⟨?_, _, rfl, Or.inr (Or.inr (Or.inr ⟨_, _, _, _, rfl⟩))⟩
     cases c.sev <;> simp [sevCat]
 
-theorem junkMessage_shape {s : Array Nat} {j : PEnt} {t : Text} (h : junkMessage s j = .ok t) : MsgShape t := by
+theorem junkMessage_shape {s : Array Nat} {cls : Cls} {j : PEnt} {t : Text} (h : junkMessage s cls j = .ok t) : MsgShape t := by
   unfold junkMessage at h
   split at h
   · cases h
@@ -350,15 +382,16 @@ theorem junkMessage_shape {s : Array Nat} {j : PEnt} {t : Text} (h : junkMessage
 
 /-- the checker answers for every pair the loop can hand to it, with positions the entry can resolve -/
 def CheckerOK (env : Env) (ref l10n : List PEnt) : Prop :=
-  ∀ r ∈ ref, ∀ l ∈ l10n, r.junk = false → (env.ck = .properties → l.junk = false) →
-    ∃ rs, runChecker env.ck env.file.locale r l = .ok rs ∧ ∀ c ∈ rs, Resolvable l.entry c.pos
+  ∀ r ∈ ref, ∀ l ∈ l10n, r.junk = false → (env.ck.kind ≠ .base → l.junk = false) →
+    (∃ b, entEquals env.cls r l = .ok b) ∧
+    ∃ rs, runChecker env.ck r l = .ok rs ∧ ∀ c ∈ rs, Resolvable env.cls l c.pos
 
-/-- no key shared by the two files belongs to a `Junk` of the reference (a `Junk` has no `equals`); with the
-    properties checker neither to a `Junk` of the localization (a `Junk` has no `value_position`) -/
+/-- no key shared by the two files belongs to a `Junk` of the reference (a `Junk` has no `equals`); with any checker
+    but the base one neither to a `Junk` of the localization (a `Junk` has no `value_position`, `entry`, `node`) -/
 def NoJunkClash (ck : CheckerKind) (ref l10n : List PEnt) : Prop :=
   ∀ k, k ∈ ref.map (·.key) → k ∈ l10n.map (·.key) →
     (∀ r, lookup ref k = .ok r → r.junk = false) ∧
-    (ck = .properties → ∀ l, lookup l10n k = .ok l → l.junk = false)
+    (ck ≠ .base → ∀ l, lookup l10n k = .ok l → l.junk = false)
 
 /-- what the loop keeps true about its lists -/
 structure Good (ref : List PEnt) (st : LoopSt) : Prop where
@@ -375,10 +408,10 @@ def LabelOK (ref l10n : List PEnt) (p : AR.Label × Cmp.Key) : Prop :=
 /-- the events of an `equal` item are exactly the notifications of the check results of the two last entries -/
 def StepEvs (env : Env) (ref l10n : List PEnt) (p : AR.Label × Cmp.Key) (evs : List Ev) : Prop :=
   p.1 = .equal → ∃ refent l10nent rs, lookup ref p.2 = .ok refent ∧ lookup l10n p.2 = .ok l10nent ∧
-    runChecker env.ck env.file.locale refent l10nent = .ok rs ∧ evs = rs.filterMap (checkEv env refent l10nent)
+    runChecker env.ck refent l10nent = .ok rs ∧ evs = rs.filterMap (checkEv env refent l10nent)
 
 theorem step_spec (env : Env) {obs0 : ObsList} (hf : Fresh obs0) (hm : ObsM.Modelled env.file) (ref l10n : List PEnt)
-    (hck : CheckerOK env ref l10n) (hnc : NoJunkClash env.ck ref l10n)
+    (hck : CheckerOK env ref l10n) (hnc : NoJunkClash env.ck.kind ref l10n)
     (st : LoopSt) (p : AR.Label × Cmp.Key) (hp : LabelOK ref l10n p)
     (hr : Reachable obs0 env.file st.obs) (hg : Good ref st) :
     ∃ st' evs, step env ref l10n st p = .ok st' ∧ Emit obs0 env.file st.obs st'.obs evs ∧
@@ -456,7 +489,7 @@ theorem step_spec (env : Env) {obs0 : ObsList} (hf : Fresh obs0) (hm : ObsM.Mode
       intro evs h; cases h
     cases hj : l10nent.junk with
     | true =>
-      obtain ⟨msg, hmsg⟩ := junkMessage_ok env.l10nText l10nent
+      obtain ⟨msg, hmsg⟩ := junkMessage_ok env.l10nText env.cls l10nent
       obtain ⟨obs', rv, hn, he⟩ := notify_emit env hf hm hr .error (.str msg)
       refine ⟨?st5, ?evs5, ?hs5, ?he5, ?hwf5, ?hse5, ?hg5⟩
       case hs5 =>
@@ -512,10 +545,10 @@ theorem step_spec (env : Env) {obs0 : ObsList} (hf : Fresh obs0) (hm : ObsM.Mode
     obtain ⟨l10nent, hll⟩ := lookup_of_mem l10n k hpl
     obtain ⟨hrj, hlj⟩ := hnc k hpr hpl
     have hrj := hrj refent hlr
-    have hlj : env.ck = .properties → l10nent.junk = false := fun h => hlj h l10nent hll
+    have hlj : env.ck.kind ≠ .base → l10nent.junk = false := fun h => hlj h l10nent hll
     obtain ⟨hrmem, hrkey, _⟩ := lookup_ok hlr
     obtain ⟨hlmem, hlkey, _⟩ := lookup_ok hll
-    obtain ⟨rs, hrs, hres⟩ := hck refent hrmem l10nent hlmem hrj hlj
+    obtain ⟨⟨eqb, heq⟩, rs, hrs, hres⟩ := hck refent hrmem l10nent hlmem hrj hlj
     obtain ⟨obs', skips', hcl, he, hsk⟩ := checkLoop_spec env hf hm refent l10nent rs hres st.obs st.skips hr
     have hgood : ∀ stats, Good ref { st with obs := obs', stats := stats, skips := skips' } := by
       intro stats
@@ -541,17 +574,19 @@ theorem step_spec (env : Env) {obs0 : ObsList} (hf : Fresh obs0) (hm : ObsM.Mode
         exact hgood _
       case hwf8 => exact hwf
       case hse8 => exact hse
-    · by_cases heq : (refent.key == l10nent.key && refent.val == l10nent.val) = true
-      · refine ⟨?st9, ?evs9, ?hs9, ?he9, ?hwf9, ?hse9, ?hg9⟩
+    · cases eqb with
+      | true =>
+        refine ⟨?st9, ?evs9, ?hs9, ?he9, ?hwf9, ?hse9, ?hg9⟩
         case hs9 =>
-          simp only [step, hlr, hll, hkm, hrj, Bool.false_eq_true, if_false, heq, if_true, hrs, hcl]; rfl
+          simp only [step, hlr, hll, hkm, hrj, Bool.false_eq_true, if_false, heq, hrs, hcl]; rfl
         case he9 =>
           exact he
         case hg9 =>
           exact hgood _
         case hwf9 => exact hwf
         case hse9 => exact hse
-      · refine ⟨?st10, ?evs10, ?hs10, ?he10, ?hwf10, ?hse10, ?hg10⟩
+      | false =>
+        refine ⟨?st10, ?evs10, ?hs10, ?he10, ?hwf10, ?hse10, ?hg10⟩
         case hs10 =>
           simp only [step, hlr, hll, hkm, hrj, Bool.false_eq_true, if_false, heq, hrs, hcl]; rfl
         case he10 =>
@@ -564,7 +599,7 @@ theorem step_spec (env : Env) {obs0 : ObsList} (hf : Fresh obs0) (hm : ObsM.Mode
 /-! ### the whole loop, the duplicate notifications, the merge call -/
 
 theorem loop_spec (env : Env) {obs0 : ObsList} (hf : Fresh obs0) (hm : ObsM.Modelled env.file) (ref l10n : List PEnt)
-    (hck : CheckerOK env ref l10n) (hnc : NoJunkClash env.ck ref l10n) :
+    (hck : CheckerOK env ref l10n) (hnc : NoJunkClash env.ck.kind ref l10n) :
     ∀ (ar : List (AR.Label × Cmp.Key)), (∀ p ∈ ar, LabelOK ref l10n p) →
     ∀ (st : LoopSt), Reachable obs0 env.file st.obs → Good ref st →
       ∃ st' evs, foldE (step env ref l10n) ar st = .ok st' ∧ Emit obs0 env.file st.obs st'.obs evs ∧
@@ -613,6 +648,7 @@ theorem refAllOf_ok (ref : List PEnt) (k : Cmp.Key) (h : k ∈ ref.map (·.key))
   exact ⟨r.all, by simp [refAllOf, hr]⟩
 
 theorem doMerge_ok (env : Env) (ref : List PEnt) (st : LoopSt) (hg : Good ref st)
+    (hsp : env.mergeOn = true → env.cls ≠ .node)
     (hmerge : ∀ (mf : Bool) (caps : Nat) (contents : List Nat) (skips : List Merge.Skip) (ms : List (List Nat)),
       (∀ s ∈ skips, s.span.isSome) → Merge.merge mf caps contents skips ms ≠ .typeError) :
     ∃ o, doMerge env ref st.missings st.skips = .ok o := by
@@ -623,24 +659,28 @@ theorem doMerge_ok (env : Env) (ref : List PEnt) (st : LoopSt) (hg : Good ref st
     simp only [Bool.not_true, Bool.false_eq_true, if_false]
     obtain ⟨ms, hms, _⟩ := mapE_ok (f := refAllOf ref) (l := st.missings)
       (fun k hk => refAllOf_ok ref k (hg.missings k hk))
-    obtain ⟨sks, hsks, hmem⟩ := mapE_ok (f := mkSkip ref) (l := st.skips) (by
+    have hspan : ∀ sk : PEnt, spanOf env.cls sk = some (sk.entry.s, sk.entry.e) := by
+      intro sk
+      have := hsp hmo
+      cases hc : env.cls <;> simp_all [spanOf]
+    obtain ⟨sks, hsks, hmem⟩ := mapE_ok (f := mkSkip env.cls ref) (l := st.skips) (by
       intro sk hsk
       unfold mkSkip
       cases hj : sk.junk with
       | true => exact ⟨_, rfl⟩
       | false =>
         obtain ⟨t, ht⟩ := refAllOf_ok ref sk.key (hg.skips sk hsk hj)
-        exact ⟨{ span := some (sk.entry.s, sk.entry.e), junk := false, refAll := t }, by simp [ht]⟩)
+        exact ⟨{ span := spanOf env.cls sk, junk := false, refAll := t }, by simp [ht]⟩)
     have hspans : ∀ s ∈ sks, s.span.isSome := by
       intro s hs
       obtain ⟨sk, _, hmk⟩ := hmem s hs
       unfold mkSkip at hmk
       split at hmk
-      · simp only [Except.ok.injEq] at hmk; subst hmk; rfl
+      · simp only [Except.ok.injEq] at hmk; subst hmk; simp [hspan]
       · split at hmk
         · cases hmk
-        · simp only [Except.ok.injEq] at hmk; subst hmk; rfl
-    have hne := hmerge true (capsOf env.fmt) env.l10nText.toList sks ms hspans
+        · simp only [Except.ok.injEq] at hmk; subst hmk; simp [hspan]
+    have hne := hmerge true env.caps env.l10nText.toList sks ms hspans
     rw [hms, hsks]
     simp only
     first
@@ -672,7 +712,8 @@ theorem labels_ok (ref l10n : List PEnt) :
 
 /-- the events of the whole comparison: duplicates of the reference, duplicates of the localization, the loop, the stats -/
 theorem compareParsed_spec (env : Env) {obs0 : ObsList} (hf : Fresh obs0) (hm : ObsM.Modelled env.file) (ref l10n : List PEnt)
-    (hck : CheckerOK env ref l10n) (hnc : NoJunkClash env.ck ref l10n)
+    (hck : CheckerOK env ref l10n) (hnc : NoJunkClash env.ck.kind ref l10n)
+    (hsp : env.mergeOn = true → env.cls ≠ .node)
     (hmerge : ∀ (mf : Bool) (caps : Nat) (contents : List Nat) (skips : List Merge.Skip) (ms : List (List Nat)),
       (∀ s ∈ skips, s.span.isSome) → Merge.merge mf caps contents skips ms ≠ .typeError) :
     ∃ obs' outcome evs stats, compareParsed env ref l10n obs0 = .ok (obs', outcome) ∧
@@ -684,7 +725,7 @@ theorem compareParsed_spec (env : Env) {obs0 : ObsList} (hf : Fresh obs0) (hm : 
   have hr2 := e2.reachable (e1.reachable hr0)
   obtain ⟨st, evs, h3, e3, hw3, hg3, hall⟩ := loop_spec env hf hm ref l10n hck hnc _ (labels_ok ref l10n)
     { obs := obs2 } hr2 ⟨by simp, by simp⟩
-  obtain ⟨o, ho⟩ := doMerge_ok env ref st hg3 hmerge
+  obtain ⟨o, ho⟩ := doMerge_ok env ref st hg3 hsp hmerge
   have hreach := ((e1.trans e2).trans e3) [] (Reach.nil _ _)
   refine ⟨st.obs.updateStats env.file (statsList st.stats), o, _, statsList st.stats, ?_,
     updateStats_reach hreach (statsList st.stats), ?_, ?_⟩
@@ -807,24 +848,26 @@ theorem poEval_some (s : Array Nat) (frags : List (Nat × Nat)) : ∃ t, P.poEva
   exact ⟨ts.flatten, by simp [hts]⟩
 
 /-- the attribute values of an Entity of a covered format can always be computed; only gettext keys are tuples -/
-theorem entView_ok (f : P.Fmt) (hc : covered f = true) (s : Array Nat) (e : P.Entry)
+theorem entView_ok (f : P.Fmt) (s : Array Nat) (e : P.Entry)
     (hpo : f = .po → (P.poCreate s e.s).isSome) :
-    ∃ v val, P.entView f s e = some v ∧ v.val = some val ∧ (f ≠ .po → v.ctxt = none) := by
+    ∃ v, P.entView f s e = some v ∧ (f ≠ .dtd → ∃ val, v.val = some val) ∧ (f ≠ .po → v.ctxt = none) ∧
+      (f = .po → v.ctxt ≠ none) := by
   cases f with
-  | dtd => simp [covered, checkerOf] at hc
-  | ini => exact ⟨_, _, rfl, rfl, fun _ => rfl⟩
-  | inc => exact ⟨_, _, rfl, rfl, fun _ => rfl⟩
-  | properties => exact ⟨_, _, rfl, P.propsVal_eq_spec _, fun _ => rfl⟩
+  | dtd => exact ⟨_, rfl, fun h => absurd rfl h, fun _ => rfl, fun h => by cases h⟩
+  | ini => exact ⟨_, rfl, fun _ => ⟨_, rfl⟩, fun _ => rfl, fun h => by cases h⟩
+  | inc => exact ⟨_, rfl, fun _ => ⟨_, rfl⟩, fun _ => rfl, fun h => by cases h⟩
+  | properties => exact ⟨_, rfl, fun _ => ⟨_, P.propsVal_eq_spec _⟩, fun _ => rfl, fun h => by cases h⟩
   | po =>
     have hp := hpo rfl
     obtain ⟨p, hp⟩ := Option.isSome_iff_exists.1 hp
     obtain ⟨mid, hmid⟩ := poEval_some s p.msgid
     obtain ⟨mstr, hmstr⟩ := poEval_some s p.msgstr
     cases hctx : p.msgctxt with
-    | none => exact ⟨_, _, by simp [P.entView, hp, hctx, hmid, hmstr]; rfl, rfl, fun h => absurd rfl h⟩
+    | none =>
+      exact ⟨_, by simp [P.entView, hp, hctx, hmid, hmstr]; rfl, fun _ => ⟨_, rfl⟩, fun h => absurd rfl h, fun _ => by simp⟩
     | some fr =>
       obtain ⟨c, hcx⟩ := poEval_some s fr
-      exact ⟨_, _, by simp [P.entView, hp, hctx, hcx, hmid, hmstr]; rfl, rfl, fun h => absurd rfl h⟩
+      exact ⟨_, by simp [P.entView, hp, hctx, hcx, hmid, hmstr]; rfl, fun _ => ⟨_, rfl⟩, fun h => absurd rfl h, fun _ => by simp⟩
 
 theorem assign_entry_mem (f : P.Fmt) (s : Array Nat) (ctx : Nat) :
     ∀ (es : List P.Entry) (n off : Nat), ∀ h ∈ (Hist.assign f s ctx n off es).2, h.entry ∈ es := by
@@ -841,23 +884,24 @@ theorem assign_entry_mem (f : P.Fmt) (s : Array Nat) (ctx : Nat) :
 /-- a parsed entry is a Junk or an Entity, and the flag says which; only gettext keys are tuples -/
 def PWf (f : P.Fmt) (e : PEnt) : Prop :=
   ((e.junk = true ∧ e.entry.kind = .junk) ∨ (e.junk = false ∧ e.entry.kind = .entity)) ∧
-  (f ≠ .po → ∃ t, e.key = .str t)
+  (f ≠ .po → ∃ t, e.key = .str t) ∧
+  (f = .po → e.junk = false → ∃ a b, e.key = .tup a b)
 
 theorem PWf.entity {f : P.Fmt} {e : PEnt} (h : PWf f e) (hj : e.junk = false) : e.entry.kind = .entity := by
   rcases h.1 with ⟨h1, _⟩ | ⟨_, h2⟩
   · rw [hj] at h1; cases h1
   · exact h2
 
-theorem mkEnt_ok (f : P.Fmt) (hc : covered f = true) (s : Array Nat) (h : Hist.Ent)
+theorem mkEnt_ok (ext : Ext) (f : P.Fmt) (s : Array Nat) (h : Hist.Ent)
     (hw : h.jid.isSome = (h.entry.kind == P.Kind.junk)) (hloc : h.entry.localizable = true)
     (hpo : f = .po → h.entry.kind = .entity → (P.poCreate s h.entry.s).isSome) :
-    ∃ e, mkEnt f s h = .ok e ∧ PWf f e := by
+    ∃ e, mkEnt ext f s h = .ok e ∧ PWf f e := by
   unfold mkEnt
   cases hj : h.jid with
   | some id =>
     rw [hj] at hw
-    refine ⟨_, rfl, Or.inl ⟨rfl, ?_⟩, fun _ => ⟨_, rfl⟩⟩
-    simpa using hw.symm
+    refine ⟨_, rfl, Or.inl ⟨rfl, ?_⟩, fun _ => ⟨_, rfl⟩, fun _ h => by simp [mkJunk] at h⟩
+    simpa [mkJunk] using hw.symm
   | none =>
     rw [hj] at hw
     have hk : h.entry.kind = .entity := by
@@ -867,25 +911,37 @@ theorem mkEnt_ok (f : P.Fmt) (hc : covered f = true) (s : Array Nat) (h : Hist.E
       rcases hloc with h1 | h1
       · exact h1
       · exact absurd h1 hnj
-    obtain ⟨v, val, hv, hval, hctx⟩ := entView_ok f hc s h.entry (fun hf => hpo hf hk)
-    simp only [hv, hval]
-    refine ⟨_, rfl, Or.inr ⟨rfl, hk⟩, ?_⟩
-    intro hf
-    simp only [hctx hf]
-    exact ⟨_, rfl⟩
+    obtain ⟨v, hv, hval, hctx, hctx'⟩ := entView_ok f s h.entry (fun hf => hpo hf hk)
+    simp only [hv]
+    have hvv : ∃ val, entVal ext f v = some val := by
+      by_cases hd : f = .dtd
+      · subst hd; exact ⟨_, rfl⟩
+      · obtain ⟨val, hv2⟩ := hval hd
+        refine ⟨val, ?_⟩
+        cases f <;> first | exact hv2 | exact absurd rfl hd
+    obtain ⟨val, hvv⟩ := hvv
+    rw [hvv]
+    refine ⟨_, rfl, Or.inr ⟨rfl, hk⟩, ?_, ?_⟩
+    · intro hf
+      simp only [hctx hf]
+      exact ⟨_, rfl⟩
+    · intro hf _
+      cases hc : v.ctxt with
+      | none => exact absurd hc (hctx' hf)
+      | some c => exact ⟨_, _, rfl⟩
 
-theorem parseFile_ok (f : P.Fmt) (hc : covered f = true) (s : Array Nat) (junkid : Nat)
+theorem parseFile_ok (ext : Ext) (f : P.Fmt) (s : Array Nat) (junkid : Nat)
     (hwalk : ∃ es, P.walk f s = .done es) :
-    ∃ ents n, parseFile f s junkid = .ok (ents, n) ∧ ∀ e ∈ ents, PWf f e := by
+    ∃ ents n, parseFile ext f s junkid = .ok (ents, n) ∧ ∀ e ∈ ents, PWf f e := by
   obtain ⟨es, hes⟩ := hwalk
   unfold parseFile
   rw [hes]
   simp only
-  obtain ⟨ents, hents, hmem⟩ := mapE_ok (f := mkEnt f s)
+  obtain ⟨ents, hents, hmem⟩ := mapE_ok (f := mkEnt ext f s)
     (l := (Hist.assign f s 0 junkid 0 es).2.filter (fun h => h.entry.localizable)) (by
       intro h hh
       simp only [List.mem_filter] at hh
-      obtain ⟨e, he, _⟩ := mkEnt_ok f hc s h (Hist.assign_wf f s 0 es junkid 0 h hh.1) hh.2 (by
+      obtain ⟨e, he, _⟩ := mkEnt_ok ext f s h (Hist.assign_wf f s 0 es junkid 0 h hh.1) hh.2 (by
         intro hf hk
         subst hf
         apply po_entity_parts s es hes _ _ hk
@@ -895,7 +951,7 @@ theorem parseFile_ok (f : P.Fmt) (hc : covered f = true) (s : Array Nat) (junkid
   intro e he
   obtain ⟨h, hh, hmk⟩ := hmem e he
   simp only [List.mem_filter] at hh
-  obtain ⟨e', he', hwf⟩ := mkEnt_ok f hc s h (Hist.assign_wf f s 0 es junkid 0 h hh.1) hh.2 (by
+  obtain ⟨e', he', hwf⟩ := mkEnt_ok ext f s h (Hist.assign_wf f s 0 es junkid 0 h hh.1) hh.2 (by
     intro hf hk
     subst hf
     apply po_entity_parts s es hes _ _ hk
@@ -906,9 +962,10 @@ theorem parseFile_ok (f : P.Fmt) (hc : covered f = true) (s : Array Nat) (junkid
 
 /-! ### the base checker answers for every pair -/
 
-theorem checkerOK_base (env : Env) (h : env.ck = .base) (ref l10n : List PEnt) : CheckerOK env ref l10n := by
+theorem checkerOK_base (env : Env) (h : env.ck.kind = .base) (hc : env.cls = .plain) (ref l10n : List PEnt) :
+    CheckerOK env ref l10n := by
   intro r _ l _ _ _
-  refine ⟨runBase l, by simp [runChecker, h], ?_⟩
+  refine ⟨⟨_, by rw [hc]; rfl⟩, runBase l, by simp [runChecker, h], ?_⟩
   intro c hc
   simp only [runBase, List.mem_map] at hc
   obtain ⟨x, _, rfl⟩ := hc
@@ -917,41 +974,37 @@ theorem checkerOK_base (env : Env) (h : env.ck = .base) (ref l10n : List PEnt) :
 /-! ### the whole comparison -/
 
 /-- the hypothesis of the totality theorems on the two texts: `NoJunkClash` for what they parse to -/
-def NoJunkClashT (fmt : P.Fmt) (refText l10nText : Array Nat) : Prop :=
-  ∀ ref n1 l10n n2 ck, parseFile fmt refText 0 = .ok (ref, n1) → parseFile fmt l10nText n1 = .ok (l10n, n2) →
-    checkerOf fmt = some ck → NoJunkClash ck ref l10n
+def NoJunkClashT (ext : Ext) (fmt : P.Fmt) (refText l10nText : Array Nat) : Prop :=
+  ∀ ref n1 l10n n2, parseFile ext fmt refText 0 = .ok (ref, n1) → parseFile ext fmt l10nText n1 = .ok (l10n, n2) →
+    NoJunkClash (checkerOf fmt) ref l10n
 
-def envOf (fmt : P.Fmt) (ck : CheckerKind) (file : ObsM.File) (mergeOn : Bool) (l10nText : Array Nat) : Env :=
-  { fmt := fmt, ck := ck, file := file, mergeOn := mergeOn, l10nText := l10nText }
+theorem clsOf_ne_node (fmt : P.Fmt) : clsOf fmt ≠ .node := by cases fmt <;> simp [clsOf]
 
 /-- everything the property theorems need about one run of `compareFiles` -/
-theorem compareFiles_spec (fmt : P.Fmt) (ck : CheckerKind) (hck : checkerOf fmt = some ck)
+theorem compareFiles_spec (ext : Ext) (fmt : P.Fmt)
     (file : ObsM.File) (hm : ObsM.Modelled file) {obs0 : ObsList} (hf : Fresh obs0)
     (refText l10nText : Array Nat) (mergeOn : Bool)
     (hwalk : ∀ s, ∃ es, P.walk fmt s = .done es)
     (hmerge : ∀ (mf : Bool) (caps : Nat) (contents : List Nat) (skips : List Merge.Skip) (ms : List (List Nat)),
       (∀ s ∈ skips, s.span.isSome) → Merge.merge mf caps contents skips ms ≠ .typeError)
-    (hchk : ∀ ref l10n, (∀ e ∈ ref, PWf fmt e) → (∀ e ∈ l10n, PWf fmt e) →
-      CheckerOK (envOf fmt ck file mergeOn l10nText) ref l10n)
-    (hnc : NoJunkClashT fmt refText l10nText) :
+    (hchk : ∀ ref n1 l10n n2, parseFile ext fmt refText 0 = .ok (ref, n1) → parseFile ext fmt l10nText n1 = .ok (l10n, n2) →
+      (∀ e ∈ ref, PWf fmt e) → (∀ e ∈ l10n, PWf fmt e) →
+      CheckerOK (envOf ext fmt file mergeOn ref l10nText) ref l10n)
+    (hnc : NoJunkClashT ext fmt refText l10nText) :
     ∃ ref n1 l10n n2 obs' outcome evs stats,
-      parseFile fmt refText 0 = .ok (ref, n1) ∧ parseFile fmt l10nText n1 = .ok (l10n, n2) ∧
+      parseFile ext fmt refText 0 = .ok (ref, n1) ∧ parseFile ext fmt l10nText n1 = .ok (l10n, n2) ∧
       (∀ e ∈ ref, PWf fmt e) ∧ (∀ e ∈ l10n, PWf fmt e) ∧
-      compareFiles fmt file obs0 refText l10nText mergeOn = .ok (reportOf obs' outcome) ∧
+      compareFiles ext fmt file obs0 refText l10nText mergeOn = .ok (reportOf obs' outcome) ∧
       Reach obs0 file (evs ++ [.stats file stats]) obs' ∧ (∀ ev ∈ evs, EvWF ev) ∧
       ∀ p ∈ AR.addRemove (ref.map (·.key)) (l10n.map (·.key)),
-        ∃ evp, StepEvs (envOf fmt ck file mergeOn l10nText) ref l10n p evp ∧ ∀ ev ∈ evp, ev ∈ evs := by
-  have hcov : covered fmt = true := by simp [covered, hck]
-  obtain ⟨ref, n1, hp1, hw1⟩ := parseFile_ok fmt hcov refText 0 (hwalk refText)
-  obtain ⟨l10n, n2, hp2, hw2⟩ := parseFile_ok fmt hcov l10nText n1 (hwalk l10nText)
+        ∃ evp, StepEvs (envOf ext fmt file mergeOn ref l10nText) ref l10n p evp ∧ ∀ ev ∈ evp, ev ∈ evs := by
+  obtain ⟨ref, n1, hp1, hw1⟩ := parseFile_ok ext fmt refText 0 (hwalk refText)
+  obtain ⟨l10n, n2, hp2, hw2⟩ := parseFile_ok ext fmt l10nText n1 (hwalk l10nText)
   obtain ⟨obs', outcome, evs, stats, hcmp, hreach, hwf, hall⟩ :=
-    compareParsed_spec (envOf fmt ck file mergeOn l10nText) hf hm ref l10n (hchk ref l10n hw1 hw2)
-      (hnc ref n1 l10n n2 ck hp1 hp2 hck) hmerge
+    compareParsed_spec (envOf ext fmt file mergeOn ref l10nText) hf hm ref l10n (hchk ref n1 l10n n2 hp1 hp2 hw1 hw2)
+      (hnc ref n1 l10n n2 hp1 hp2) (fun _ => clsOf_ne_node fmt) hmerge
   refine ⟨ref, n1, l10n, n2, obs', outcome, evs, stats, hp1, hp2, hw1, hw2, ?_, hreach, hwf, hall⟩
-  simp only [compareFiles, hck, hp1, hp2]
-  have : compareParsed { fmt := fmt, ck := ck, file := file, mergeOn := mergeOn, l10nText := l10nText } ref l10n obs0
-      = .ok (obs', outcome) := hcmp
-  rw [this]
+  simp only [compareFiles, hp1, hp2, hcmp]
 
 /-! ### a decidable sufficient condition for `NoJunkClashT` -/
 
@@ -960,11 +1013,11 @@ def noClashB (ref l10n : List PEnt) : Bool :=
   ref.all (fun r => !r.junk || !(l10n.map (·.key)).contains r.key) &&
   l10n.all (fun l => !l.junk || !(ref.map (·.key)).contains l.key)
 
-def noClashTB (fmt : P.Fmt) (refText l10nText : Array Nat) : Bool :=
-  match parseFile fmt refText 0 with
+def noClashTB (ext : Ext) (fmt : P.Fmt) (refText l10nText : Array Nat) : Bool :=
+  match parseFile ext fmt refText 0 with
   | .error _ => true
   | .ok (ref, n1) =>
-    match parseFile fmt l10nText n1 with
+    match parseFile ext fmt l10nText n1 with
     | .error _ => true
     | .ok (l10n, _) => noClashB ref l10n
 
@@ -994,10 +1047,10 @@ theorem noClashB_sound (ck : CheckerKind) (ref l10n : List PEnt) (h : noClashB r
       rw [hc] at this
       cases this
 
-theorem noClashTB_sound (fmt : P.Fmt) (refText l10nText : Array Nat) (h : noClashTB fmt refText l10nText = true) :
-    NoJunkClashT fmt refText l10nText := by
-  intro ref n1 l10n n2 ck hp1 hp2 _
+theorem noClashTB_sound (ext : Ext) (fmt : P.Fmt) (refText l10nText : Array Nat)
+    (h : noClashTB ext fmt refText l10nText = true) : NoJunkClashT ext fmt refText l10nText := by
+  intro ref n1 l10n n2 hp1 hp2
   simp only [noClashTB, hp1, hp2] at h
-  exact noClashB_sound ck ref l10n h
+  exact noClashB_sound _ ref l10n h
 
 end Pipe
